@@ -42,14 +42,14 @@ theorem reload_same_unobservable (P : List SDef) (before after : List Ev) :
 /-- After `reload P'`, every stream that is new or whose declaration changed is exactly what a fresh load
 of `P'` makes it (new definition, empty state), whatever the old engine had processed. -/
 theorem reload_changed_is_fresh (E : Eng) (P' : List SDef) (d' : SDef) (hd : (load P').find d'.name = some d')
-    (hc : E.find d'.name = none ∨ ∃ d, E.find d'.name = some d ∧ changed d d' = true) :
+    (hc : E.find d'.name = none ∨ ∃ d, E.find d'.name = some d ∧ changed E (load P') d d' = true) :
     (reload E P').find d'.name = (load P').find d'.name ∧ (reload E P').hist d'.name = (load P').hist d'.name := by
   have := reload_changed_fresh E P' d' hd hc
   rw [hd, load_hist_nil]; exact this
 
 /-- every stream whose declaration did not change keeps its definition and its state -/
 theorem reload_unchanged_keeps_state (E : Eng) (P' : List SDef) (d d' : SDef) (hd : (load P').find d'.name = some d')
-    (hf : E.find d'.name = some d) (hch : changed d d' = false) :
+    (hf : E.find d'.name = some d) (hch : changed E (load P') d d' = false) :
     (reload E P').find d'.name = some d ∧ (reload E P').hist d'.name = E.hist d'.name :=
   reload_unchanged_kept E P' d d' hd hf hch
 
@@ -62,7 +62,7 @@ theorem reload_routes_like_fresh (E : Eng) (P' : List SDef) :
 
 /-- if every stream changed (or the engine had not processed anything), reloading is loading -/
 theorem reload_all_changed_is_load (E : Eng) (P' : List SDef)
-    (h : ∀ d', (load P').find d'.name = some d' → E.find d'.name = none ∨ ∃ d, E.find d'.name = some d ∧ changed d d' = true)
+    (h : ∀ d', (load P').find d'.name = some d' → E.find d'.name = none ∨ ∃ d, E.find d'.name = some d ∧ changed E (load P') d d' = true)
     (s : Ty) : (reload E P').find s = (load P').find s ∧ (reload E P').hist s = (load P').hist s := by
   cases hf : (load P').find s with
   | none => have := reload_removed E P' s hf; rw [load_hist_nil]; exact this
